@@ -146,7 +146,7 @@ func Run(cs Case, c *vrt.Ctx) {
 			continue
 		}
 		var err error
-		pv, stack := vrt.Catch(func() { err = fe.f(append([]byte(nil), data...), cs.Chunk) })
+		pv, stack := vrt.Catch(func() { err = fe.f(gx.Exact(data), cs.Chunk) })
 		if pv != nil {
 			c.Fail("panic", fe.name, fmt.Sprintf("%v at %s on %q", pv, stack, data))
 			continue
